@@ -359,7 +359,7 @@ def run(ctx):
             break
         run_case(ctx, c)
     ctx.note("enumerated_type_x_authstate", len(enum))
-    ctx.explore(cases(), lambda c: run_case(ctx, c), ctx.scale(420, 3000), shrink=False)
+    ctx.explore(cases(), lambda c: run_case(ctx, c), ctx.scale(320, 3000), shrink=False)
     if ctx.classes.get("control-ok", 0) == 0 and not ctx.budget_hit and not ctx.unknown:
         raise core.HarnessError("no session ever reached the post-authentication control: the check would be vacuous")
 
